@@ -115,6 +115,8 @@ func runC14(p *Program, r *Report) {
 	ruleR145(p, r)
 	r.Rule("R14.6", "E3", 3, "decoder state hygiene: every exit of hmac.Processor.OnColumn (re)defines the armed hash, so no later column dereferences a cleared matchedHash")
 	ruleHmacProcessorState(p, r, "R14.6")
+	r.Rule("R14.8", "E4", 3, "no panicking type assertion on decoded input: in the decoder files every type assertion whose operand comes from outside the function (a decoded map or interface value) is of the two-result form; a one-result assertion panics when a crafted value has another dynamic type")
+	ruleR148(p, r)
 	r.Rule("R14.7", "E3", 5, "a hash prefix that may be absent is tested before use: every method call on the result of hmac.ExtractHash / ExtractHashAndData (nil when the data does not start with a known hash id or is too short) is dominated by the non-nil edge of a nil test of that result (sibling contradiction rule: most call sites test it)")
 	ruleR147(p, r)
 	_ = strings.Contains
@@ -607,4 +609,56 @@ func init() {
 
 func init() {
 	mut("C14", "length field re-read between its check and its use", "decryptor/postgresql/packet_handler.go", "	// the declared length comes from the other side: reserve a bounded amount up front,\n	// the buffer grows with the data that actually arrives\n	if packet.dataLength > maxPacketPreallocation {", "	packet.setDataLengthBuffer(packet.descriptionLengthBuf)\n	if packet.dataLength > maxPacketPreallocation {", "R14.3", "Grow")
+}
+
+var r148Confirmed = map[string]string{}
+
+func ruleR148(p *Program, r *Report) {
+	inScope := map[string]bool{}
+	for _, f := range c14Files {
+		inScope[f] = true
+	}
+	n := 0
+	for _, fn := range p.srcFns {
+		if !inScope[p.FileOf(fn.Pos())] {
+			continue
+		}
+		seen := map[string]int{}
+		for _, b := range fn.Blocks {
+			for _, in := range b.Instrs {
+				ta, ok := in.(*ssa.TypeAssert)
+				if !ok {
+					continue
+				}
+				if types.Identical(ta.X.Type(), ta.AssertedType) {
+					continue // bound method value on an interface: go/ssa's nil check, not a source-level assertion
+				}
+				n++
+				construct := "assertion to " + types.TypeString(ta.AssertedType, func(*types.Package) string { return "" })
+				seen[construct]++
+				if seen[construct] > 1 {
+					construct += " #" + itoa(seen[construct])
+				}
+				if ta.CommaOk {
+					r.OK("R14.8", fnName(fn), construct, p.Pos(ta.Pos()), "two-result form")
+					continue
+				}
+				// a one-result assertion is fine when the operand was made in this function from a value of that type
+				if mi, isMi := ta.X.(*ssa.MakeInterface); isMi && types.Identical(mi.X.Type(), ta.AssertedType) {
+					r.OK("R14.8", fnName(fn), construct, p.Pos(ta.Pos()), "operand built here from that type")
+					continue
+				}
+				if why, okC := r148Confirmed[fnName(fn)+"|"+construct]; okC {
+					r.Confirmed("R14.8", fnName(fn), construct, p.Pos(ta.Pos()), why)
+					continue
+				}
+				r.Bad("R14.8", fnName(fn), construct, p.Pos(ta.Pos()), "one-result type assertion on a value that comes from decoded input: a stored line / message whose field has another JSON type makes the handler panic")
+			}
+		}
+	}
+	_ = n
+}
+
+func init() {
+	mut("C14", "JSON log parser asserts the message type without checking", "logging/log_entry_parser.go", "			expectedMessage, ok := parsed[logrus.FieldKeyMsg].(string)\n			if ok && expectedMessage == EndOfAuditLogChainMessage {", "			expectedMessage := parsed[logrus.FieldKeyMsg].(string)\n			if expectedMessage == EndOfAuditLogChainMessage {", "R14.8", "assertion to string")
 }
